@@ -99,6 +99,9 @@ impl<K: Clone + PartialEq + Eq + Hash + std::fmt::Debug + std::cmp::PartialOrd, 
                 if val.1.is_dirty() {
                     vec.push(val);
                 }
+            } else {
+                // everything is in use
+                break;
             }
         }
 
@@ -237,21 +240,11 @@ impl<K: Clone + PartialEq + Eq + Hash + std::fmt::Debug + std::cmp::PartialOrd, 
                     }
                 });
 
-        if key_out.is_none() {
-            // it is safe to remove cache entry with active user, since the
-            // user holds the reference
-            (_, key_out) = map
-                .iter()
-                .fold((usize::MAX, None), |(min, key_out), (key, entry)| {
-                    let l = entry.lru.load(Ordering::Relaxed);
-                    if l < min {
-                        (l, Some(key.clone()))
-                    } else {
-                        (min, key_out)
-                    }
-                });
-        }
-
+        // An entry with an active user is never dropped: the user goes on
+        // working on its copy (updating it, or writing it back with the
+        // dirty flag already cleared) while the next lookup would load a
+        // second copy from disk. The cache exceeds its limit instead until
+        // entries become idle.
         if key_out.is_none() {
             None
         } else {
